@@ -6,6 +6,7 @@ package c03
 // and Coq case files for Model/Precisebank.v.
 
 import (
+	banktypes "github.com/cosmos/cosmos-sdk/x/bank/types"
 	. "kavaverif/lib"
 
 	"encoding/json"
@@ -62,11 +63,17 @@ type c03Snap struct {
 	frac []*big.Int
 	rem  *big.Int
 	sup  []*big.Int
-	ext  []*big.Int // keeper.GetBalance(addr, akava)
-	spnd []*big.Int // keeper.SpendableCoin(addr, akava)
+	ext  []*big.Int   // keeper.GetBalance(addr, akava)
+	spnd []*big.Int   // keeper.SpendableCoin(addr, akava)
+	bsp  [][]*big.Int // x/bank SpendableCoin(addr, denom)
 }
 
-func c03Setup() *c03World {
+// c03Setup builds the world.  variant selects a bank configuration that must make NO
+// difference at keeper level (x/bank's SendCoins, which precisebank wraps, does not
+// consult the send-enabled settings; only x/bank's message server does):
+//
+//	1: usdx and ukava send-disabled;  2: DefaultSendEnabled = false;  other: defaults.
+func c03Setup(variant int) *c03World {
 	tApp := NewApp()
 	users := Addrs(c03NUsers)
 	cdc := tApp.AppCodec()
@@ -99,6 +106,16 @@ func c03Setup() *c03World {
 			panic(err)
 		}
 	}
+	bk := tApp.GetBankKeeper()
+	switch variant {
+	case 1:
+		bk.SetSendEnabled(ctx, "usdx", false)
+		bk.SetSendEnabled(ctx, "ukava", false)
+	case 2:
+		if err := bk.SetParams(ctx, banktypes.Params{DefaultSendEnabled: false}); err != nil {
+			panic(err)
+		}
+	}
 	return &c03World{tApp: tApp, ctx: ctx, pk: tApp.GetPrecisebankKeeper(), addrs: addrs, cf: pbtypes.ConversionFactor().BigInt()}
 }
 
@@ -111,6 +128,11 @@ func (w *c03World) snap() *c03Snap {
 			row[d] = bk.GetBalance(w.ctx, w.addrs[a], dn).Amount.BigInt()
 		}
 		s.bal = append(s.bal, row)
+		srow := make([]*big.Int, len(c03Denoms))
+		for d, dn := range c03Denoms {
+			srow[d] = bk.SpendableCoin(w.ctx, w.addrs[a], dn).Amount.BigInt()
+		}
+		s.bsp = append(s.bsp, srow)
 		s.frac = append(s.frac, w.pk.GetFractionalBalance(w.ctx, w.addrs[a]).BigInt())
 		s.ext = append(s.ext, w.pk.GetBalance(w.ctx, w.addrs[a], "akava").Amount.BigInt())
 		s.spnd = append(s.spnd, w.pk.SpendableCoin(w.ctx, w.addrs[a], "akava").Amount.BigInt())
@@ -325,6 +347,32 @@ func c03Monitor(w *c03World, op c03Op, cls Class, before, after *c03Snap) (pred,
 					fmt.Sprintf("amount %s <= spendable %s", x, before.spnd[op.A])
 			}
 		}
+		// generally: a transfer is refused only for a bank reason — invalid coins, a party that
+		// is the reserve, a blocked recipient (module-to-account), a module that does not exist,
+		// or insufficient spendable funds in some denomination
+		if cls == ClassErr && (op.Kind == "send" || op.Kind == "m2a" || op.Kind == "a2m") {
+			coins := c03Coins(op.Coins)
+			reason := !coins.IsValid() || coins.Empty() || op.A == c03Reserve || op.B == c03Reserve ||
+				(op.Kind == "m2a" && (op.A < c03NUsers || w.tApp.GetBankKeeper().BlockedAddr(w.addrs[op.B]))) ||
+				(op.Kind == "a2m" && op.B < c03NUsers)
+			if !reason {
+				val := new(big.Int).Mul(coins.AmountOf("ukava").BigInt(), w.cf)
+				val.Add(val, coins.AmountOf("akava").BigInt())
+				short := val.Cmp(before.spnd[op.A]) > 0 || coins.AmountOf("ukava").BigInt().Cmp(before.bsp[op.A][2]) > 0
+				if op.A == op.B {
+					short = coins.AmountOf("akava").BigInt().Cmp(before.spnd[op.A]) > 0 || coins.AmountOf("ukava").BigInt().Cmp(before.bsp[op.A][2]) > 0
+				}
+				for _, d := range []int{1, 3} {
+					if coins.AmountOf(c03Denoms[d]).BigInt().Cmp(before.bsp[op.A][d]) > 0 {
+						short = true
+					}
+				}
+				if !short {
+					return "fails-only-when-bank-rules-require", "transfer-refused-without-bank-reason",
+						fmt.Sprintf("%s %d->%d %s: valid coins, no reserve party, recipient not blocked, every denomination within the sender's spendable balance", op.Kind, op.A, op.B, coins)
+				}
+			}
+		}
 		return "", "", ""
 	}
 	// keeper invariants
@@ -359,9 +407,19 @@ func c03Monitor(w *c03World, op c03Op, cls Class, before, after *c03Snap) (pred,
 			exp[op.A].Sub(exp[op.A], val)
 			exp[op.B].Add(exp[op.B], val)
 		}
-		// sufficient spendable funds were required
+		// sufficient spendable funds were required (x/bank refuses a transfer to oneself as well)
+		// (to oneself the ukava part and the akava part are each checked against the spendable
+		// balance — nothing leaves the account between the two — otherwise their sum is)
 		if op.A != op.B && val.Cmp(before.spnd[op.A]) > 0 {
 			return "insufficient-funds-refused", "overspend-accepted", fmt.Sprintf("value %s > spendable %s", val, before.spnd[op.A])
+		}
+		if op.A == op.B && coins.AmountOf("akava").BigInt().Cmp(before.spnd[op.A]) > 0 {
+			return "insufficient-funds-refused", "self-transfer-above-spendable-accepted", fmt.Sprintf("akava %s > spendable %s", coins.AmountOf("akava"), before.spnd[op.A])
+		}
+		for _, d := range []int{1, 2, 3} {
+			if amt := coins.AmountOf(c03Denoms[d]).BigInt(); amt.Cmp(before.bsp[op.A][d]) > 0 {
+				return "insufficient-funds-refused", "overspend-accepted:" + c03Denoms[d], fmt.Sprintf("%s %d->%d: %s%s > spendable %s", op.Kind, op.A, op.B, amt, c03Denoms[d], before.bsp[op.A][d])
+			}
 		}
 		if !bigEq(before.rem, after.rem) {
 			return "transfer-keeps-remainder", "transfer-changed-remainder", fmt.Sprintf("%s -> %s", before.rem, after.rem)
@@ -498,8 +556,11 @@ type c03Hist struct {
 // c03Run executes either generated (ops == nil) or explicit operations and
 // returns the executed ops, the Coq term and the first monitor failure.
 func c03Run(seed uint64, idx, n int, ops []c03Op, cnt *Counters) (exec []c03Op, coq string, fail *Failure, okOps int, splits map[string]bool) {
-	w := c03Setup()
+	w := c03Setup(idx % 4)
 	r := NewRng(seed, uint64(idx))
+	if cnt != nil {
+		cnt.Inc(fmt.Sprintf("config:bank-send-enabled-variant=%d", idx%4))
+	}
 	splits = map[string]bool{}
 	prev := w.snap()
 	header := w.coqEnvState(prev)
